@@ -632,7 +632,7 @@ class Expander:
         loops = self._loops(item) if is_fn and item.body_open is not None else []
         for d, d_line, payload in directives:
             text = "\n".join(payload)
-            origin = ("tmpl", self.unit, d_line + 1)
+            origin = ("tmpl", self.unit, d_line)
             if d.startswith("//@contract-from "):
                 cpath = os.path.join(VERIF, d.split(None, 1)[1].strip())
                 try:
@@ -651,6 +651,16 @@ class Expander:
                         raise ExtractError(f"{self.unit}:{d_line}: contract on item without body")
                 else:
                     ed.insert(body_rel, "\n" + text + "\n", origin)
+            elif d.startswith("//@loop-end "):
+                n = int(d.split()[1])
+                if n < 1 or n > len(loops):
+                    raise ExtractError(f"{self.unit}:{d_line}: {relpath}:{name} has {len(loops)} loops, wanted #{n}")
+                # closing brace of the n-th loop body
+                open_off = loops[n - 1] + ed.base
+                k = 0
+                while src.toks[k].s != open_off:
+                    k += 1
+                ed.insert(src.toks[src.match[k]].s - ed.base, "\n" + text + "\n", origin)
             elif d.startswith("//@loop "):
                 n = int(d.split()[1])
                 if n < 1 or n > len(loops):
@@ -664,6 +674,21 @@ class Expander:
                 if item.body_open is None:
                     raise ExtractError(f"{self.unit}:{d_line}: at-start on item without body")
                 ed.insert(src.toks[item.body_open].e - ed.base, "\n" + text + "\n", origin)
+            elif re.match(r"//@(before|after)-re(#\d+)? ", d):
+                which, rx = d.split(None, 1)
+                lo = body_rel if body_rel is not None else 0
+                nth = 1
+                if "#" in which:
+                    which, n = which.split("#")
+                    nth = int(n)
+                ms = list(re.finditer(rx.strip(), ed.text[lo:], flags=re.S))
+                if "#" not in d.split(None, 1)[0] and len(ms) != 1:
+                    raise ExtractError(f"{src.label}:{item.name}: {which} regex anchor matches {len(ms)} times: {rx.strip()!r}")
+                if len(ms) < nth:
+                    raise ExtractError(f"{src.label}:{item.name}: {which} regex anchor occurrence #{nth} not found: {rx.strip()!r}")
+                m = ms[nth - 1]
+                pos = lo + (m.end() if which.startswith("//@after") else m.start())
+                ed.insert(pos, "\n" + text + "\n", origin)
             elif re.match(r"//@(before|after)(#\d+)? ", d):
                 which, anchor = d.split(None, 1)
                 anchor = anchor.strip()
